@@ -8,7 +8,7 @@ for d in seeded/*/; do
   n=$(basename $d)
   [ -f $d/patch.diff ] || continue
   p=$(python3 -c "import json;print(json.load(open('$d/meta.json'))['property'])")
-  r=$(./seedtest.sh $p /verif/seeded/$n quick 2>&1 | grep -E "^(OK|VIOLATION|/repo dirty|patch does not apply)" | head -1 | cut -c1-150)
+  r=$(./seedtest.sh $p "$(pwd)/seeded/$n" quick 2>&1 | grep -E "^(OK|VIOLATION|/.* dirty|patch does not apply)" | head -1 | cut -c1-150)
   case "$r" in
     VIOLATION*no-failing-input-found) s="caught (obligation/correspondence, no input)";;
     VIOLATION*) s="caught (replay)";;
